@@ -53,10 +53,16 @@ def register(reg):
         def impl(it, a, k, n):
             lst = k.get("__star__")
             if lst is None:
-                raise Unsupported("posixpath.join with a concrete argument list")
+                # a fixed number of arguments: some path text (uninterpreted, folded pairwise)
+                JOIN2 = z3.Function("posix_join2", StrS, StrS, StrS)
+                r = it.need(a[0]).z
+                for x in a[1:]:
+                    r = JOIN2(r, it.need(x).z)
+                return VStr(r)
             return VStr(JOIN(lst.arrs[0], lst.length))
         return VBuiltin("posixpath.join", impl)
     reg.overrides["std:posixpath.join"] = _join
+    reg.overrides["std:os.path.join"] = _join
     # POSIX: no alternative separators (Windows separators are assumed away, as in the property)
     reg.overrides["werkzeug/security.py:_os_alt_seps"] = lambda interp: VList([])
 
@@ -66,7 +72,7 @@ def register(reg):
         return None
     # spec-side view of the same function
     from pyvc.values import VBuiltin as _VB
-    reg.spec_names["normpath"] = _VB("spec:normpath", lambda it, a, k, n: VStr(NORM(a[0].z)))
+    reg.spec_names["normpath"] = _VB("spec:normpath", lambda it, a, k, n: VStr(NORM((a[0].val if hasattr(a[0], "val") and hasattr(a[0], "isnone") else a[0]).z)))
     reg.spec("np(s)", "'' if s == '' else normpath(s)")
     reg.spec("has_dotdot(f)", "f == '..' or f.startswith('../') or f.endswith('/..') or ('/../' in f)")
     reg.spec("safe_piece(f)", "f == '' or (not f.startswith('/') and not has_dotdot(f))")
@@ -96,4 +102,48 @@ def register(reg):
         ensures=["re_in(result, '[A-Za-z0-9_.-]*')",
                  "not result.startswith('.') and not result.startswith('_')",
                  "not result.endswith('.') and not result.endswith('_')"],
+    )
+
+    # ---- SharedDataMiddleware loaders: a file is only ever looked up under a path safe_join approved
+    from pyvc.values import VOpaque, opaque_sort
+    import z3 as _z3
+    reg.overrides["std:os.path.isfile"] = lambda interp: VBuiltin(
+        "os.path.isfile", lambda it, a, k, n: VBool(_z3.Bool(it.ctx.fresh_name("isfile"))))
+    BASENAME = _z3.Function("path_basename", StrS, StrS)
+    reg.overrides["std:os.path.basename"] = lambda interp: VBuiltin(
+        "os.path.basename", lambda it, a, k, n: VStr(BASENAME(it.need(a[0]).z)))
+    reg.overrides["std:posixpath.basename"] = reg.overrides["std:os.path.basename"]
+    SDM = reg.model("SharedData", cls="werkzeug/middleware/shared_data.py:SharedDataMiddleware", fields={})
+    reg.spec("approved(path)", "path is None or safe_piece(np(path))")
+    reg.contract(
+        "werkzeug/middleware/shared_data.py:SharedDataMiddleware.get_directory_loader.loader", prop=P,
+        params={"path": "Optional[str]"}, closure={"directory": "str", "self": SDM}, modifies=[],
+        ensures=[
+            # something is served only for the directory itself or for a request path safe_join let through
+            "implies(result[1] is not None, approved(path))",
+            "implies(not approved(path), result[0] is None and result[1] is None)",
+        ],
+        raises={},
+    )
+
+    def _open_resource(it, o, n):
+        def impl(it2, a, k, n2):
+            d = it2.ctx.choose([_z3.BoolVal(True)] * 3, what="open_resource")
+            if d == 1:
+                it2.raise_("OSError", node=n2)
+            if d == 2:
+                it2.raise_("ValueError", node=n2)
+            return VOpaque(_z3.Const(it2.ctx.fresh_name("resource"), opaque_sort("resource")), "resource")
+        return VBuiltin("reader.open_resource", impl)
+    reg.overrides["opaque:reader.open_resource"] = _open_resource
+    reg.overrides["isinstance:resource"] = lambda it, v, cls: _z3.Bool(it.ctx.fresh_name("is_bytesio"))
+    reg.contract(
+        "werkzeug/middleware/shared_data.py:SharedDataMiddleware.get_package_loader.loader", prop=P,
+        params={"path": "Optional[str]"},
+        closure={"package_path": "str", "reader": "opaque:reader", "load_time": "opaque:any"}, modifies=[],
+        ensures=[
+            "implies(result[1] is not None, path is not None and safe_piece(np(path)))",
+            "implies(path is None or not safe_piece(np(path)), result[0] is None and result[1] is None)",
+        ],
+        raises={},          # OSError / ValueError (embedded NUL) of the resource reader end as "not found"
     )
